@@ -13,6 +13,8 @@
 //	        used, gas consumed by the top-level frame, refund counter, the frame events, the gas
 //	        pool before / after, the complete post-state of the universe and what happened to all
 //	        OTHER accounts of the state (must be nothing).
+//	process pass P: the REAL StateProcessor.Process (the strict loop used to re-execute stored blocks)
+//	        on a fourth copy: error class or receipts / gas used / post-state.
 //	commit  pass B: the REAL BlockOperations.commitBlock executes the whole block (no tracer) on a
 //	        copy of the same pre-state; logged: receipts (transaction, gas used, status, cumulative
 //	        gas), skipped transactions with the error commitBlock logged, BlockInfo.GasUsed, the
@@ -30,6 +32,7 @@ import (
 	"math/rand"
 	"os"
 	"runtime"
+	"sort"
 	"sync"
 	"testing"
 	"time"
@@ -41,6 +44,7 @@ import (
 	"github.com/kardiachain/go-kardia/mainchain/blockchain"
 	stypes "github.com/kardiachain/go-kardia/mainchain/staking/types"
 	"github.com/kardiachain/go-kardia/mainchain/tx_pool"
+	"github.com/kardiachain/go-kardia/trie"
 	"github.com/kardiachain/go-kardia/types"
 
 	"verifharness/internal/mbt"
@@ -92,6 +96,17 @@ type evCommit struct {
 	ER string          `json:"er"` // error returned by commitBlock ("" = none)
 	OD int64           `json:"od"`
 	ON int             `json:"on"`
+	view
+}
+
+type evProcess struct {
+	E  string     `json:"e"`
+	ER int        `json:"er"` // 1 = Process returned an error (block invalid)
+	CL string     `json:"cl"` // class of that error
+	RC [][4]int64 `json:"rc"` // receipts [tx index, gas used, status, cumulative gas]
+	GU int64      `json:"gu"` // gas used returned
+	OD int64      `json:"od"`
+	ON int        `json:"on"`
 	view
 }
 
@@ -206,6 +221,23 @@ func (sc *scenario) buildPre() {
 			}
 		}
 		sc.setAccount(c, sc.smallBalance(), 1, sc.g.program(), slots)
+	}
+	if r.Intn(8) == 0 {
+		// a pair built for the DEAD-BENEFICIARY case of the specification: C1 calls C2, which destructs
+		// itself (to a third account); then C1 destructs itself in favour of the already destructed C2
+		a := &asm{}
+		a.call(opCALL, sc.u.addr[idC2], uint64(r.Intn(3)), -1)
+		a.pushAddr(sc.u.addr[idC2]).op(opSELFDESTRUCT)
+		sc.st.SetCode(sc.u.addr[idC1], a.b)
+		sc.st.SetNonce(sc.u.addr[idC1], 1)
+		sc.st.SetBalance(sc.u.addr[idC1], big.NewInt(sc.smallBalance()))
+		b := &asm{}
+		if r.Intn(2) == 0 {
+			b.sstore(0, uint64(r.Intn(2)))
+		}
+		b.pushAddr(sc.u.addr[[]int{idE, idCB, idC3, idS1}[r.Intn(4)]]).op(opSELFDESTRUCT)
+		sc.st.SetCode(sc.u.addr[idC2], b.b)
+		sc.st.SetNonce(sc.u.addr[idC2], 1)
 	}
 	if r.Intn(12) == 0 {
 		// an account already sits where the next creation of S1 would go (address collision)
@@ -419,7 +451,7 @@ func (sc *scenario) run(res *mbt.Result) (lines [][]byte, why string) {
 	if err != nil {
 		return nil, "infra:snap"
 	}
-	stB, stE := st.Copy(), st.Copy() // pass B and the empty block start from the same pre-state
+	stB, stE, stP := st.Copy(), st.Copy(), st.Copy() // pass B, the empty block and pass P start from the same pre-state
 	pv, ok := sc.u.project(pre)
 	if !ok {
 		return nil, "range"
@@ -552,7 +584,61 @@ func (sc *scenario) run(res *mbt.Result) (lines [][]byte, why string) {
 	c.OD, c.ON, _ = sc.u.outside(postE, postB)
 	emit(c)
 	res.Count(1)
+
+	// ---- pass P: the strict loop, StateProcessor.Process (re-execution of a stored block): the first
+	// transaction ApplyTransaction refuses invalidates the block
+	var rcP types.Receipts
+	var usedP uint64
+	var perr error
+	var pvP interface{}
+	func() {
+		defer func() { pvP = recover() }()
+		blk := types.NewBlock(sc.header, txs, nil, nil, trie.NewStackTrie(nil))
+		rcP, _, usedP, perr = sc.ch.bc.Processor().Process(blk, stP, kvm.Config{})
+	}()
+	if pvP != nil {
+		res.Mismatch("txexec:panic:Process", fmt.Sprintf("StateProcessor.Process panicked: %v", pvP),
+			map[string]interface{}{"scenario": sc.id, "seed": mbt.Seed()})
+		return nil, "panic"
+	}
+	p := evProcess{E: "process", RC: [][4]int64{}}
+	if perr != nil {
+		p.ER, p.CL = 1, classify(perr)
+		p.view = c.view // the state of an invalid block is not defined: nothing to compare
+	} else {
+		for _, rc := range rcP {
+			p.RC = append(p.RC, [4]int64{int64(idx[rc.TxHash]), int64(rc.GasUsed), int64(rc.Status), int64(rc.CumulativeGasUsed)})
+		}
+		p.GU = int64(usedP)
+		postP, err := takeSnap(stP)
+		if err != nil {
+			return nil, "infra:snap"
+		}
+		p.view, okp = sc.u.project(postP)
+		if !okp || sc.u.over {
+			return nil, "range"
+		}
+		p.OD, p.ON, _ = sc.u.outside(pre, postP)
+	}
+	emit(p)
+	res.Count(1)
 	return lines, ""
+}
+
+var (
+	keyMu sync.Mutex
+	keys  = map[string]struct{}{} // distinct non-trivial cases of this process (reported as a list: the runner unites them)
+)
+
+func keyList() []string {
+	keyMu.Lock()
+	defer keyMu.Unlock()
+	l := make([]string, 0, len(keys))
+	for k := range keys {
+		l = append(l, k)
+	}
+	sort.Strings(l)
+	return l
 }
 
 // noteCase records the distinct non-trivial cases: result class x kind of transaction x what
@@ -590,7 +676,9 @@ func noteCase(res *mbt.Result, e *evTx) {
 		key += "+refund"
 	}
 	if e.CL != "exec" || len(e.FR) > 0 || e.OK == 0 || e.RC > 0 || e.T == 0 {
-		res.Distinct(key)
+		keyMu.Lock()
+		keys[key] = struct{}{}
+		keyMu.Unlock()
 	}
 	res.Add("class_"+e.CL, 1)
 	if e.CL != "exec" && e.PR != e.P0 {
@@ -691,6 +779,7 @@ func TestRecord(t *testing.T) {
 		}
 	}
 	res.Set("scenarios_recorded", n)
+	res.Set("distinct_keys", keyList())
 	for k, v := range dropped {
 		res.Set("scenarios_dropped_"+k, v)
 	}
